@@ -889,7 +889,8 @@ def gen_lin_case(seed, quick):
             "regimes": rng.random() < 0.35,
             # memory layout of every tensor: contiguous, transposed storage, slice of a larger buffer, expanded (stride 0)
             "layout": {k_: rng.choice(["c", "c", "T", "slice", "expand"]) for k_ in ("A", "B", "C", "D", "c1", "c2", "x", "u")},
-            "special": ({"C": "eye", "D": "zero"} if rng.random() < 0.2 else ({rng.choice(["A", "B", "C", "D"]): rng.choice(["eye", "zero"])} if rng.random() < 0.15 else {})),
+            "special": ({"C": rng.choice(["eye", "eye", "neareye"]), "D": rng.choice(["zero", "zero", "nearzero"])} if rng.random() < 0.25 else
+                        ({rng.choice(["A", "B", "C", "D"]): rng.choice(["eye", "zero", "neareye", "nearzero"])} if rng.random() < 0.15 else {})),
             "dseed": rng.randrange(1 << 30)}
     evs = []
     nev = rng.randint(3, 8) if (quick or rng.random() < 0.8) else rng.randint(12, 40)     # long roll-outs
@@ -928,6 +929,18 @@ def gen_lin_case(seed, quick):
         extra.append({"ev": "clone", "op": "make", "how": rng.choice(hows)})
         for _ in range(rng.randint(1, 4)):
             extra.append({"ev": "clone", "op": rng.choice(["call", "call", "call", "reset"]), "t": rng.randint(-T, T + 1)})
+    # user subclasses that override PROPERTIES: every subset of A, B, C, D, c1, c2 generated outside the object while the
+    # constructor receives None / a dummy; for LTI (constant, or computed from _t % T: sys = ltip) and LTV subclasses
+    if rng.random() < 0.35:
+        names = ["A", "B", "C", "D", "c1", "c2"]
+        sub = names if rng.random() < 0.15 else [nm for nm in names if rng.random() < 0.4] or [rng.choice(names)]
+        if rng.random() < 0.4:
+            sub = sorted(set(sub) | {"c1", "c2"})
+        case["ov"] = {nm: (rng.choice(["none", "none", "zeros", "junk"]) if nm in ("c1", "c2") else rng.choice(["none", "zeros", "junk"])) for nm in sub}
+        if kind == "lti" and rng.random() < 0.5:
+            case["sys"], case["T"] = "ltip", rng.choice([2, 3, 4])
+            kind, T = "ltip", case["T"]
+        extra = [x_ for x_ in extra if x_["ev"] != "clone"]        # (generated values live outside the object: no copies here)
     # stale reads: between calls the caller updates in place a system matrix / constant (through the system's own
     # attribute) or the state tensor it is about to feed back
     for _ in range(rng.choice([0, 0, 1, 2])):
@@ -972,10 +985,16 @@ def lin_tensors(case):
     A, B, C, D = rnd(case["bA"], (n, n), "A"), rnd(case["bB"], (n, m), "B"), rnd(case["bC"], (p, n), "C"), rnd(case["bD"], (p, m), "D")
     for nm_, how_ in (case.get("special") or {}).items():          # identity / zero matrices (C = I, D = 0 is the usual system)
         X_ = {"A": A, "B": B, "C": C, "D": D}[nm_]
+        if 0 in X_.stride():
+            continue
         if how_ == "zero":
-            X_.zero_() if 0 not in X_.stride() else None
-        elif X_.shape[-1] == X_.shape[-2] and 0 not in X_.stride():
+            X_.zero_()
+        elif how_ == "nearzero":      # in the band between round-off and a default allclose tolerance: must not be treated as zero
+            X_.copy_(torch.randn(X_.shape, generator=g, dtype=torch.float64).to(X_.dtype) * 1e-7)
+        elif X_.shape[-1] == X_.shape[-2]:
             X_.copy_(torch.eye(X_.shape[-1], dtype=X_.dtype).expand(X_.shape))
+            if how_ == "neareye":     # identity up to a 1e-6 relative perturbation: must not be treated as the identity
+                X_.add_(torch.randn(X_.shape, generator=g, dtype=torch.float64).to(X_.dtype) * 1e-6)
     c1 = rnd(case["bc1"], (n,), "c1") if case["c1"] else None
     c2 = rnd(case["bc2"], (p,), "c2") if case["c2"] else None
     case["_guards"] = guards
@@ -1006,38 +1025,42 @@ def guards_ok(guards, views):
 
 
 def make_lin(P, case, A, B, C, D, c1, c2):
-    if case["sys"] == "lti":
+    """the system under test. Plain `LTI`; or a user subclass (of `LTI` for sys = ltip, of `LTV` for ltvi / ltvp) that overrides the
+    PROPERTIES `A, B, C, D, c1, c2`: a property not named in case["ov"] indexes the stacked private buffer by the clock
+    (`self._A[..., self._t, :, :]`, the pattern of the LTV docstring); a property named in case["ov"] is *generated* — its values
+    live outside the object and the constructor received `None` or a dummy for it."""
+    ov = case.get("ov") or {}
+    true = {"A": A, "B": B, "C": C, "D": D, "c1": c1, "c2": c2}
+    if case["sys"] == "lti" and not ov:
         return P.module.LTI(A, B, C, D, c1, c2)
-    periodic, T = case["sys"] == "ltvp", case["T"]
+    periodic, T = case["sys"] in ("ltvp", "ltip"), case["T"]
+    stacked = case["sys"] != "lti"
+    base = P.module.LTI if case["sys"] in ("lti", "ltip") else P.module.LTV
 
-    class MyLTV(P.module.LTV):          # the documented way of using LTV: override the properties, index by `_t`
-        def _i(self):
-            return self._t % T if periodic else self._t
+    def mkprop(name):
+        nd = 2 if name in "ABCD" else 1
 
-        @property
-        def A(self):
-            return self._A[..., self._i(), :, :]
-
-        @property
-        def B(self):
-            return self._B[..., self._i(), :, :]
-
-        @property
-        def C(self):
-            return self._C[..., self._i(), :, :]
-
-        @property
-        def D(self):
-            return self._D[..., self._i(), :, :]
-
-        @property
-        def c1(self):
-            return None if self._c1 is None else self._c1[..., self._i(), :]
-
-        @property
-        def c2(self):
-            return None if self._c2 is None else self._c2[..., self._i(), :]
-    return MyLTV(A, B, C, D, c1, c2)
+        def get(self):
+            src = true[name] if name in ov else getattr(self, "_" + name)
+            if src is None or not stacked:
+                return src
+            i_ = self._t % T if periodic else self._t
+            return src[..., i_, :, :] if nd == 2 else src[..., i_, :]
+        return property(get)
+    cls = type("UserSys", (base,), {nm: mkprop(nm) for nm in true})
+    args = []
+    for nm in ("A", "B", "C", "D", "c1", "c2"):
+        how = ov.get(nm)
+        if how is None or true[nm] is None:
+            args.append(true[nm] if how is None else None)
+        elif how == "none":
+            args.append(None)
+        elif how == "zeros":
+            args.append(torch.zeros_like(true[nm]).contiguous())
+        else:
+            args.append((torch.ones_like(true[nm]).contiguous() * 7.0))          # a dummy with wrong values
+    case["_ctor"] = args
+    return cls(*args)
 
 
 def py_slice(case, t):
@@ -1045,7 +1068,7 @@ def py_slice(case, t):
     if case["sys"] == "lti":
         return 0
     T = case["T"]
-    if case["sys"] == "ltvp":
+    if case["sys"] in ("ltvp", "ltip"):
         return t % T
     if 0 <= t < T:
         return t
@@ -1103,6 +1126,35 @@ def lin_exact(ctx, case, i, tens, sl, xb, ub, xn, y, idxs, eps, who):
     return ok
 
 
+def obj_line(case, mkind, mper, clock, idx, true, xb, ub, xn, y, magrec):
+    """`c15.obj` request for one forward of an object with overridden properties: the buffers are what the constructor got
+    (None / dummy for the overridden ones), the overrides are the generated values; the model resolves the properties"""
+    full, T, n, m, p = case["full"], case["T"], case["n"], case["m"], case["p"]
+    ov, ctor = case.get("ov") or {}, case["_ctor"]
+    bat = {"A": case["bA"], "B": case["bB"], "C": case["bC"], "D": case["bD"], "c1": case["bc1"], "c2": case["bc2"]}
+    core = {"A": (n, n), "B": (n, m), "C": (p, n), "D": (p, m), "c1": (n,), "c2": (p,)}
+    st = (T,) if case["sys"] != "lti" else ()
+
+    def toks(X, nm):
+        if X is None:
+            X = torch.zeros(st + core[nm], dtype=torch.float64)
+            return wire_list(X.flatten().tolist())
+        return wire_list(bitem(X, len(bat[nm]), full, idx).double().flatten().tolist())
+    parts = [f"c15.obj {mkind} {mper} {T} {n} {m} {p} {clock}"]
+    for k_, nm in enumerate(("A", "B", "C", "D")):
+        parts.append(toks(ctor[k_], nm))                       # (a `None` buffer of an overridden matrix is sent as zeros: never read)
+    for k_, nm in ((4, "c1"), (5, "c2")):
+        parts.append("0" if ctor[k_] is None else "1 " + toks(ctor[k_], nm))
+    for k_, nm in enumerate(("A", "B", "C", "D")):
+        parts.append("1 " + toks(true[k_], nm) if nm in ov else "0")
+    for k_, nm in ((4, "c1"), (5, "c2")):
+        parts.append("0" if nm not in ov else ("1" if true[k_] is None else "2 " + toks(true[k_], nm)))
+    parts.append(wire_list(bitem(xb, xb.ndim - 1, full, idx).double().tolist()))
+    parts.append(wire_list(bitem(ub, ub.ndim - 1, full, idx).double().tolist()))
+    got = bitem(xn, xn.ndim - 1, full, idx).double().tolist() + bitem(y, y.ndim - 1, full, idx).double().tolist()
+    return " ".join(parts), got, list(magrec.get(idx, []))
+
+
 def check_lin(ctx: Ctx, case):
     try:
         return _check_lin(ctx, case)
@@ -1138,7 +1190,9 @@ def _check_lin(ctx: Ctx, case):
     if len(idxs) > 4:
         rr = random.Random(case["seed"] ^ 77)
         idxs = [idxs[0], idxs[-1]] + rr.sample(idxs[1:-1], 2)
-    hdr0 = f"c15.lin {'lti' if not ltv else 'ltv'} {1 if case['sys'] == 'ltvp' else 0} {T} {n} {m} {p} {1 if c1 is not None else 0} {1 if c2 is not None else 0}"
+    clock_ltv = case["sys"] in ("ltvi", "ltvp")          # set_refpoint(t) sets the clock only for (subclasses of) LTV
+    mkind, mper = ("ltv" if clock_ltv else "lti"), (1 if case["sys"] in ("ltvp", "ltip") else 0)
+    hdr0 = f"c15.lin {mkind} {mper} {T} {n} {m} {p} {1 if c1 is not None else 0} {1 if c2 is not None else 0}"
 
     def stack_tokens(X, bnd, idx):
         it = bitem(X, bnd, full, idx).double()
@@ -1287,6 +1341,8 @@ def _check_lin(ctx: Ctx, case):
                                              f"lin-eq: {nm}[{r_}] = {gv!r} but {'A' if nm != 'y' else 'C'}_t x + {'B' if nm != 'y' else 'D'}_t u + c = {float(w)!r} "
                                              f"(clock {clock}, slice {sl}, |diff| {float(abs(Fraction(gv) - w)):.3e} > {tol:.3e})")
                                     ok = False
+                    if case.get("ov") and "_obj" not in case and not ub.ndim > 1 + nfull:
+                        case["_obj"] = obj_line(case, mkind, mper, clock, idxs[0], (A, B, C, D, c1, c2), xb, ub, xn, y, magrec)
                     if ev == "call":
                         last_x = xn
             if raised is None and ev == "call":
@@ -1333,8 +1389,8 @@ def _check_lin(ctx: Ctx, case):
                         last_x.mul_(0.5) if e["how"] == "mul_" else last_x.add_(0.25)
                 elif ev == "pokemat":       # … or a matrix / constant of the system, through the system's own attribute
                     clock_expect = clock
-                    tgt = {"A": sys_._A, "B": sys_._B, "C": sys_._C, "D": sys_._D, "c1": sys_._c1, "c2": sys_._c2}[e["which"]]
                     own = {"A": A, "B": B, "C": C, "D": D, "c1": c1, "c2": c2}[e["which"]]
+                    tgt = own if e["which"] in (case.get("ov") or {}) else getattr(sys_, "_" + e["which"])     # generated property: its source
                     if tgt is not None and case.get("layout", {}).get(e["which"], "c") != "expand":
                         if tgt is not own:
                             ctx.fail({**pub(case), "at": i}, f"attribute: system attribute _{e['which']} is not the tensor the system was built with")
@@ -1375,7 +1431,7 @@ def _check_lin(ctx: Ctx, case):
                 else:
                     tok = "ref=" + ("none" if e["t"] is None else to_wire(e["t"]["v"]))
                     clock_expect = clock
-                    if e["t"] is None and ltv:
+                    if e["t"] is None and clock_ltv:
                         try:
                             sys_.set_refpoint()
                         except Exception:
@@ -1384,7 +1440,7 @@ def _check_lin(ctx: Ctx, case):
                         r = sys_.set_refpoint(t=None if e["t"] is None else lin_time(e["t"]))
                         if r is not sys_:
                             ctx.fail({**pub(case), "at": i}, "refpoint-return: set_refpoint does not return the system")
-                        if ltv:
+                        if clock_ltv:
                             clock_expect = e["t"]["v"]
             except _Abort:
                 raise
@@ -1462,11 +1518,29 @@ def run_lin(ctx: Ctx, cases):
         for idx, ln, seg_impl in ls:
             lines.append(ln)
             metas.append((case, idx, seg_impl))
+        oj = case.pop("_obj", None)
+        case.pop("_ctor", None)
+        if oj is not None:
+            lines.append(oj[0])
+            metas.append((case, "OBJ", oj[1:]))
     if cases:
         c0 = cases[0]
         ctx.sample({"stream": "lin", **{k: v for k, v in c0.items() if k not in ("events",)}, "events": sig_events(c0["events"])})
     reps = ctx.driver.run(lines)
     for rep, (case, idx, impl) in zip(reps, metas):
+        if idx == "OBJ":             # objForward: properties resolved from buffers and overrides by the model
+            got, mags = impl
+            st, toks = common.parse_reply(rep)
+            eps = common.EPS[case["dtype"]]
+            if st != "ok" or toks[0] != "O":
+                ctx.disagree("lin.obj", pub(case), f"model of the object with overridden properties {sorted(case['ov'])}: {rep[:60]}, the implementation returned")
+                continue
+            want = [common.from_wire(t_) for t_ in toks[1:]]
+            for q_, (gv, w, mg) in enumerate(zip(got, want, mags)):
+                if abs(Fraction(gv) - w) > 64 * eps * mg + 1e-300:
+                    ctx.disagree("lin.obj", pub(case), f"object with overridden properties {sorted(case['ov'])}: output entry {q_} implementation {gv!r}, model (properties resolved) {float(w)!r}")
+                    break
+            continue
         model = parse_lin_reply(rep, len(impl))
         eps = common.EPS[case["dtype"]]
         n, p, full = case["n"], case["p"], case["full"]
@@ -1517,6 +1591,25 @@ def gen_nls_case(seed, quick):
             worst = max(worst, m_, *d_)
         if worst < (1e5 if dtype == "float32" else 1e9) and any(tree_size(t) > 1 for t in fs):
             break
+    # user callbacks that return their argument or a view of it (full-state observation, g = x[:p], f = u, f = x): the
+    # trees are the corresponding variables, so model and oracles are unchanged
+    passthrough = {}
+    if rng.random() < 0.15:
+        gm = rng.choice(["state", "state", "view", "input", None])
+        fm = rng.choice([None, None, "state"] + (["input"] if nx == nu else []))
+        if gm is None and fm is None:
+            gm = "state"
+        if gm == "state":
+            gs = [("V", i_) for i_ in range(nx)]
+        elif gm == "view":
+            gs = [("V", i_) for i_ in range(rng.randint(1, nx))]
+        elif gm == "input":
+            gs = [("V", nx + j_) for j_ in range(nu)]
+        if fm == "state":
+            fs = [("V", i_) for i_ in range(nx)]
+        elif fm == "input":
+            fs = [("V", nx + j_) for j_ in range(nu)]
+        passthrough = {k_: v_ for k_, v_ in (("f", fm), ("g", gm)) if v_}
     evs = []
     nev = rng.randint(4, 10)
     have_call = False
@@ -1591,7 +1684,7 @@ def gen_nls_case(seed, quick):
             evs.insert(min(len(evs), pos + 1 + rng.randint(0, 2)), {"ev": "read"})
     if not any(e["ev"] == "read" for e in evs):
         evs.append({"ev": "read"})
-    case = {"kind": "nls", "seed": seed, "nx": nx, "nu": nu, "dtype": dtype, "fs": fs, "gs": gs, "events": evs, "slots": slots, "T0": 0}
+    case = {"kind": "nls", "seed": seed, "nx": nx, "nu": nu, "dtype": dtype, "fs": fs, "gs": gs, "events": evs, "slots": slots, "T0": 0, "passthrough": passthrough}
     # extreme-but-valid clocks with the lower-precision dtype: time stamps above 2^24 (float32) / 2^53 (float64), a UNIX
     # epoch; the user's functions subtract the epoch T0 in exact integer arithmetic
     if rng.random() < 0.3:
@@ -1661,6 +1754,7 @@ def shift_times(case, T0, rng):
 def make_nls(P, case):
     fs, gs, nx, nu = case["fs"], case["gs"], case["nx"], case["nu"]
     T0 = case.get("T0", 0)
+    pt = case.get("passthrough") or {}
 
     class TreeNLS(P.module.NLS):
         def _vals(self, state, input, t):
@@ -1674,10 +1768,20 @@ def make_nls(P, case):
         def state_transition(self, state, input, t=None):
             if self.bad:
                 raise ValueError("user function raises")
+            if pt.get("f") == "state":
+                return state                      # the callback returns its argument (the trees say f_i = x_i)
+            if pt.get("f") == "input":
+                return input
             vals, cache = self._vals(state, input, t), {}
             return torch.stack([tree_torch(f, vals, state.dtype, cache) for f in fs], -1)
 
         def observation(self, state, input, t=None):
+            if pt.get("g") == "state":
+                return state                      # full-state observation: the argument itself
+            if pt.get("g") == "view":
+                return state[..., :len(gs)]       # a view of the argument
+            if pt.get("g") == "input":
+                return input
             vals, cache = self._vals(state, input, t), {}
             return torch.stack([tree_torch(g_, vals, state.dtype, cache) for g_ in gs], -1)
     return TreeNLS()
@@ -2715,21 +2819,341 @@ def run_bmv(ctx: Ctx, cases):
 
 
 
+# ============================================================================= stream: det (defaults / dtypes / interleaving)
+
+DET_DTYPES = ["int64", "int32", "int16", "int8", "uint8", "float16", "bfloat16", "float32", "float64", "complex64", "complex128"]
+JAC_DEFAULT = {"vectorize": True, "strategy": "reverse-mode"}       # documented in the NLS class (set by NLS.__init__)
+
+
+def gen_det_case(seed, quick):
+    rng = random.Random(seed)
+    sub = rng.choice(["defaults", "dtype", "dtype", "interleave"])
+    return {"kind": "det", "seed": seed, "sub": sub, "dseed": rng.randrange(1 << 30), "dtype": rng.choice(DET_DTYPES if sub == "dtype" else ["float32", "float64"]),
+            "n": rng.choice([1, 2, 3]), "m": rng.choice([1, 2, 3]), "p": rng.choice([1, 2, 3]), "batch": rng.choice([[], [], [1], [3], [2, 2], [1, 1]]),
+            "nobj": rng.choice([2, 3, 4]), "nops": rng.randint(8, 20), "matbatched": rng.random() < 0.4}
+
+
+DET_CORPUS = ([{"kind": "det", "corpus": k_, "seed": 9500 + k_, "sub": "defaults", "dseed": 40 + k_, "dtype": "float64", "n": 2, "m": 1, "p": 2, "batch": [], "nobj": 3, "nops": 16, "matbatched": False}
+               for k_ in range(3)] +
+              [{"kind": "det", "corpus": 3 + k_, "seed": 9503 + k_, "sub": "dtype", "dseed": 50 + k_, "dtype": dt_, "n": 3, "m": 3, "p": 2, "batch": [3], "nobj": 0, "nops": 0, "matbatched": k_ % 2 == 0}
+               for k_, dt_ in enumerate(DET_DTYPES)] +
+              [{"kind": "det", "corpus": 14 + k_, "seed": 9514 + k_, "sub": "interleave", "dseed": 60 + k_, "dtype": dt_, "n": n_, "m": 2, "p": 2, "batch": b_, "nobj": 0, "nops": 0, "matbatched": False}
+               for k_, (dt_, n_, b_) in enumerate([("float64", 3, []), ("float32", 3, []), ("float64", 2, [1]), ("float32", 1, [1, 1]), ("float64", 3, [4])])])
+
+
+def check_defaults(ctx: Ctx, case):
+    """several systems built with every optional argument OMITTED, used interleaved in one process; one of them is
+    customised (its `jacargs` dictionary changed in place, a reference point set, its clock reset): each of the others must
+    still show the documented defaults — clock 0 + number of its own calls, jacargs = JAC_DEFAULT, c1 = c2 = None, no
+    reference point (reading A raises), outputs = its own equations (exact oracle)"""
+    P = pp()
+    rr = random.Random(case["dseed"])
+    Simple = simple_nls_class(P)
+    N = case["nobj"]
+    g = torch.Generator().manual_seed(case["dseed"])
+    n, m, p_ = case["n"], case["m"], case["p"]
+    mats = [[torch.randint(-3, 4, sh, generator=g).double() for sh in ((n, n), (n, m), (p_, n), (p_, m))] for _ in range(N)]
+
+    class GenLTV(P.module.LTV):               # nothing handed to the constructor: everything generated from the clock
+        @property
+        def A(self):
+            return torch.eye(n, dtype=torch.float64) * (self._t + 1)
+
+        @property
+        def B(self):
+            return torch.ones(n, m, dtype=torch.float64) * self._t
+
+        @property
+        def C(self):
+            return torch.ones(p_, n, dtype=torch.float64)
+
+        @property
+        def D(self):
+            return torch.zeros(p_, m, dtype=torch.float64)
+
+    objs = []
+    for i in range(N):
+        objs.append({"k": "nls", "o": Simple(), "t": 0, "jac": dict(JAC_DEFAULT), "ref": False, "last": None})
+        objs.append({"k": "lti", "o": P.module.LTI(*mats[i]), "t": 0, "M": mats[i]})
+        objs.append({"k": "ltv", "o": GenLTV(), "t": 0})
+    ctx.count("det.defaults")
+
+    def audit(step, op):
+        for j, ob in enumerate(objs):
+            o = ob["o"]
+            t_ = clk(ctx, case, o, step, op)
+            if t_ != ob["t"]:
+                ctx.fail({**pub(case), "at": step}, f"defaults-clock: after operation {step} ({op}) object {j} ({ob['k']}, built with defaults) shows systime {t_}, "
+                                                     f"its own history (default start 0, one tick per own call, reset() -> 0) gives {ob['t']}")
+                raise _Abort()
+            if ob["k"] == "nls":
+                if o.jacargs != ob["jac"]:
+                    ctx.fail({**pub(case), "at": step}, f"defaults-jacargs: after operation {step} ({op}) object {j} (NLS built with defaults, its own jacargs "
+                                                         f"{'changed' if ob['jac'] != JAC_DEFAULT else 'never touched'}) has jacargs {o.jacargs}, expected {ob['jac']}")
+                    raise _Abort()
+                if not ob["ref"]:
+                    try:
+                        got = o.A
+                        ctx.fail({**pub(case), "at": step}, f"defaults-refpoint: after operation {step} ({op}) object {j} (NLS, set_refpoint never called on it) "
+                                                             f"returns A = {got.tolist() if isinstance(got, torch.Tensor) else got}: a reference point leaked from another object")
+                        raise _Abort()
+                    except _Abort:
+                        raise
+                    except Exception:
+                        pass
+            elif ob["k"] == "lti":
+                if o.c1 is not None or o.c2 is not None:
+                    ctx.fail({**pub(case), "at": step}, f"defaults-c: after operation {step} ({op}) object {j} (LTI built without c1, c2) has c1 = {o.c1}, c2 = {o.c2}; documented default None")
+                    raise _Abort()
+
+    audit(-1, "construction")
+    for step in range(case["nops"]):
+        j = rr.randrange(len(objs))
+        ob = objs[j]
+        o = ob["o"]
+        ops = ["call", "call", "call", "reset0", "resetk"] + (["jacmod", "jacmod", "ref", "read"] if ob["k"] == "nls" else [])
+        op = rr.choice(ops)
+        if op == "call":
+            nx_, nu_ = (1, 1) if ob["k"] == "nls" else (n, m)
+            x = [rr.randint(-3, 3) for _ in range(nx_)]
+            u = [rr.randint(-3, 3) for _ in range(nu_)]
+            xn, y = o(torch.tensor(x, dtype=torch.float64), torch.tensor(u, dtype=torch.float64))
+            t_ = ob["t"]
+            if ob["k"] == "nls":
+                ex = ([Fraction(x[0], 2) + u[0] + t_ % 1000], [Fraction(x[0] - u[0])])
+                ob["last"] = (x, u)
+            elif ob["k"] == "lti":
+                A_, B_, C_, D_ = [[[Fraction(int(v)) for v in row] for row in M.tolist()] for M in ob["M"]]
+                ex = (frac_affine(A_, B_, None, x, u)[0], frac_affine(C_, D_, None, x, u)[0])
+            else:
+                ex = ([Fraction((t_ + 1) * x[i_] + t_ * sum(u)) for i_ in range(n)], [Fraction(sum(x))] * p_)
+            got = ([Fraction(v) for v in xn.tolist()], [Fraction(v) for v in y.tolist()])
+            if got != ex:
+                ctx.fail({**pub(case), "at": step}, f"defaults-eq: operation {step}: object {j} ({ob['k']} built with defaults, clock {t_}) called with x={x} u={u} returns "
+                                                     f"{[float(v) for v in got[0]]}, {[float(v) for v in got[1]]}; its equations give {[float(v) for v in ex[0]]}, {[float(v) for v in ex[1]]}")
+                raise _Abort()
+            ob["t"] += 1
+        elif op == "reset0":
+            o.reset()                          # documented default t = 0
+            ob["t"] = 0
+        elif op == "resetk":
+            k_ = rr.randint(1, 40)
+            o.reset(k_)
+            ob["t"] = k_
+        elif op == "jacmod":
+            key, val = rr.choice([("vectorize", False), ("vectorize", True), ("strategy", "forward-mode"), ("strategy", "reverse-mode")])
+            if key == "strategy" and val == "forward-mode":
+                o.jacargs["vectorize"] = True      # torch requires vectorize=True for forward-mode
+                ob["jac"]["vectorize"] = True
+            if key == "vectorize" and not val:
+                o.jacargs["strategy"] = "reverse-mode"
+                ob["jac"]["strategy"] = "reverse-mode"
+            o.jacargs[key] = val               # the public dictionary of this object, changed in place
+            ob["jac"][key] = val
+        elif op == "ref":
+            if ob["last"] is None:
+                continue
+            o.set_refpoint()
+            ob["ref"] = (ob["last"], ob["t"])
+        elif op == "read":
+            if not ob["ref"]:
+                continue
+            (x, u), tr = ob["ref"]
+            got = [o.A.tolist(), o.B.tolist(), o.C.tolist(), o.D.tolist(), o.c1.tolist(), o.c2.tolist()]
+            ex = [[[0.5]], [[1.0]], [[1.0]], [[-1.0]], [float(tr % 1000)], [0.0]]
+            if got != ex:
+                ctx.fail({**pub(case), "at": step}, f"defaults-lin: operation {step}: object {j} (NLS f = x/2 + u + t, g = x - u, reference point x={x} u={u} t={tr}, "
+                                                     f"jacargs {o.jacargs}) reads A,B,C,D,c1,c2 = {got}; the linearisation is {ex}")
+                raise _Abort()
+        audit(step, f"{op} on object {j}")
+
+
+def _dt_data(rr, dtype, shape, lo, hi):
+    n_ = 1
+    for d_ in shape:
+        n_ *= d_
+    if dtype.startswith("complex"):
+        vals = [complex(rr.randint(lo, hi), rr.randint(lo, hi)) for _ in range(n_)]
+    else:
+        vals = [rr.randint(lo, hi) for _ in range(n_)]
+    return torch.tensor(vals, dtype=DT(dtype) if dtype not in ("float16", "bfloat16") else torch.float32).to(getattr(torch, dtype)).reshape(shape), vals
+
+
+def check_dtype(ctx: Ctx, case):
+    """bmv / bvv / bvmv and an LTI step for every dtype torch accepts there (narrow integers, half precisions, complex):
+    small integer data, so value AND dtype of the result are exact claims (oracle: python integer arithmetic);
+    torch.bool is not accepted by torch's matmul on the clean tree and is left out"""
+    P = pp()
+    dtype = case["dtype"]
+    tdt = getattr(torch, dtype)
+    rr = random.Random(case["dseed"])
+    n, m, p_ = case["n"], case["m"], case["p"]
+    batch = list(case["batch"])
+    mb = batch if case["matbatched"] else []
+    lo, hi = (0, 2) if dtype == "uint8" else (-2, 2)
+    nb = 1
+    for d_ in batch:
+        nb *= d_
+    ctx.count("det.dtype." + dtype)
+
+    def items(vals, shape_core, batched):
+        k_ = 1
+        for d_ in shape_core:
+            k_ *= d_
+        return [vals[(b_ * k_ if batched else 0):(b_ * k_ if batched else 0) + k_] for b_ in range(nb)]
+
+    def mat(v, r_, c_):
+        return [v[i_ * c_:(i_ + 1) * c_] for i_ in range(r_)]
+
+    def verdict(name, out, exp_items, core):
+        if not isinstance(out, torch.Tensor) or out.dtype != tdt:
+            ctx.fail(pub(case), f"dtype-result: {name} on {dtype} operands returns {type(out).__name__} of dtype {getattr(out, 'dtype', None)}; the result of the "
+                                f"documented sum of products of {dtype} values has dtype {dtype}")
+            return
+        if list(out.shape) != batch + core:
+            ctx.fail(pub(case), f"dtype-shape: {name} on {dtype} operands, batch {batch}: result shape {list(out.shape)}, expected {batch + core}")
+            return
+        flat = out.reshape(nb, -1).tolist()
+        for b_ in range(nb):
+            if any(complex(a_) != complex(e_) for a_, e_ in zip(flat[b_], exp_items[b_])) or len(flat[b_]) != len(exp_items[b_]):
+                ctx.fail(pub(case), f"dtype-value: {name} on {dtype} operands (small integers, exact in {dtype}), item {b_}: returns {flat[b_]}, exact value {exp_items[b_]}")
+                return
+
+    M, Mv = _dt_data(rr, dtype, mb + [n, m], lo, hi)
+    v, vv = _dt_data(rr, dtype, batch + [m], lo, hi)
+    l, lv = _dt_data(rr, dtype, batch + [n], lo, hi)
+    Mi, vi, li = items(Mv, [n, m], bool(mb)), items(vv, [m], True), items(lv, [n], True)
+    mv_ = lambda Mx, r_, c_, x: [sum(mat(Mx, r_, c_)[i_][j_] * x[j_] for j_ in range(c_)) for i_ in range(r_)]
+    verdict("bmv(M, v)", P.bmv(M, v), [mv_(Mi[b_], n, m, vi[b_]) for b_ in range(nb)], [n])
+    verdict("bvv(a, b)", P.bvv(l, v), [[a_ * b_ for a_ in li[k_] for b_ in vi[k_]] for k_ in range(nb)], [n, m])
+    verdict("bvmv(l, M, r)", P.bvmv(l, M, v), [[sum(li[b_][i_] * mat(Mi[b_], n, m)[i_][j_] * vi[b_][j_] for i_ in range(n) for j_ in range(m))] for b_ in range(nb)], [] if batch else [1])       # atleast_1d (bvmv_unbatched)
+    # one LTI step with c1, c2 in the same dtype
+    A, Av = _dt_data(rr, dtype, mb + [n, n], lo, hi)
+    B, Bv = _dt_data(rr, dtype, mb + [n, m], lo, hi)
+    C, Cv = _dt_data(rr, dtype, mb + [p_, n], lo, hi)
+    D, Dv = _dt_data(rr, dtype, mb + [p_, m], lo, hi)
+    c1, c1v = _dt_data(rr, dtype, [n], lo, hi)
+    c2, c2v = _dt_data(rr, dtype, [p_], lo, hi)
+    x, xv = _dt_data(rr, dtype, batch + [n], lo, hi)
+    u, uv = _dt_data(rr, dtype, batch + [m], lo, hi)
+    sys_ = P.module.LTI(A, B, C, D, c1, c2)
+    xn, y = sys_(x, u)
+    Ai, Bi, Ci, Di = items(Av, [n, n], bool(mb)), items(Bv, [n, m], bool(mb)), items(Cv, [p_, n], bool(mb)), items(Dv, [p_, m], bool(mb))
+    xi, ui = items(xv, [n], True), items(uv, [m], True)
+    verdict("LTI step x'", xn, [[a_ + b_ + c_ for a_, b_, c_ in zip(mv_(Ai[k_], n, n, xi[k_]), mv_(Bi[k_], n, m, ui[k_]), c1v)] for k_ in range(nb)], [n])
+    verdict("LTI step y", y, [[a_ + b_ + c_ for a_, b_, c_ in zip(mv_(Ci[k_], p_, n, xi[k_]), mv_(Di[k_], p_, m, ui[k_]), c2v)] for k_ in range(nb)], [p_])
+    if clk(ctx, case, sys_, 0, "call") != 1:
+        ctx.fail(pub(case), f"dtype-clock: one LTI call on {dtype} operands leaves the clock at {int(sys_.systime)}")
+
+
+def check_interleave(ctx: Ctx, case):
+    """two identical calls of every entry point (bmv, bvv, bvmv, an LTI step, an NLS step, the NLS linearisation) with EVERY
+    other entry point run in between on degenerate shapes (single item, all-1 batches, n = 1) and the results of those
+    calls overwritten in place by the caller (they are the caller's tensors): the second call must reproduce the first bit
+    for bit — no cached constant / workspace shared between operations may be exposed to such writes"""
+    P = pp()
+    tdt = DT(case["dtype"])
+    g = torch.Generator().manual_seed(case["dseed"])
+    n, m, p_, batch = case["n"], case["m"], case["p"], list(case["batch"])
+    rnd = lambda *sh: torch.randn(*sh, generator=g, dtype=torch.float64).to(tdt)
+    M, v, l = rnd(*batch, n, m), rnd(*batch, m), rnd(*batch, n)
+    A, B, C, D, c1, c2 = rnd(n, n), rnd(n, m), rnd(p_, n), rnd(p_, m), rnd(n), rnd(p_)
+    x, u = rnd(*batch, n), rnd(*batch, m)
+    xs, us = rnd(1), rnd(1)
+    Simple = simple_nls_class(P)
+    ctx.count("det.interleave")
+
+    def lin_read(o):
+        return torch.cat([t_.reshape(-1) for t_ in (o.A, o.B, o.C, o.D, o.c1, o.c2)])
+
+    def nls_ops():
+        o = Simple()
+        a_, b_ = o(xs.clone(), us.clone())
+        o.set_refpoint()
+        return torch.cat([a_.reshape(-1), b_.reshape(-1), lin_read(o)])
+
+    def lti_ops():
+        o = P.module.LTI(A, B, C, D, c1, c2)
+        a_, b_ = o(x.clone(), u.clone())
+        return torch.cat([a_.reshape(-1), b_.reshape(-1)])
+
+    def lti0_ops():
+        o = P.module.LTI(A, B, C, D)
+        a_, b_ = o(x.clone(), u.clone())
+        return torch.cat([a_.reshape(-1), b_.reshape(-1)])
+    ops = {"bmv": lambda: P.bmv(M, v), "bvv": lambda: P.bvv(l, v), "bvmv": lambda: P.bvmv(l, M, v), "lti": lti_ops, "lti_noconst": lti0_ops, "nls": nls_ops}
+
+    def poison():
+        """every entry point on degenerate shapes, in both dtypes, with and without autograd; every returned tensor is then
+        overwritten in place"""
+        outs = []
+        for dt_ in (torch.float64, torch.float32):
+            for b_ in ([], [1], [1, 1]):
+                for k_ in (1, n):
+                    Mx = torch.ones(*b_, k_, k_, dtype=dt_)
+                    vx = torch.ones(*b_, k_, dtype=dt_)
+                    outs += [P.bmv(Mx, vx), P.bvv(vx, vx), P.bvmv(vx, Mx, vx)]
+                    o = P.module.LTI(Mx, Mx, Mx, Mx)
+                    outs += list(o(vx, vx))
+                    o = P.module.LTI(Mx, Mx, Mx, Mx, vx, vx)
+                    outs += list(o(vx, vx))
+                    vg = vx.clone().requires_grad_(True)
+                    r_ = P.bmv(Mx, vg)
+                    r_.sum().backward()
+                    outs += [r_.detach(), vg.grad]
+            o = Simple()
+            a0 = torch.ones(1, dtype=dt_)
+            outs += list(o(a0.clone(), a0.clone()))
+            o.set_refpoint()
+            outs += [o.A, o.B, o.C, o.D, o.c1, o.c2]
+            o.reset()
+            outs.append(o.systime.clone())
+        with torch.no_grad():
+            for t_ in outs:
+                if isinstance(t_, torch.Tensor) and not t_.is_inference() and 0 not in t_.stride():
+                    t_.fill_(7) if t_.dtype != torch.bool else None
+
+    for name, fn in ops.items():
+        first = fn().clone()
+        poison()
+        second = fn()
+        if first.shape != second.shape or first.dtype != second.dtype or not torch.equal(first, second):
+            bad = (first != second).nonzero()[:1].tolist() if first.shape == second.shape else "shape"
+            ctx.fail(pub(case), f"interleave: {name} ({case['dtype']}, batch {batch}, n={n}) called twice on the same operands with every other entry point run on single-item / "
+                                f"all-1 shapes in between (their results overwritten in place by the caller): second result differs from the first at {bad}: "
+                                f"{first.reshape(-1)[:4].tolist()} vs {second.reshape(-1)[:4].tolist()}")
+            return
+
+
+def run_det(ctx: Ctx, cases):
+    for case in cases:
+        fn = {"defaults": check_defaults, "dtype": check_dtype, "interleave": check_interleave}[case["sub"]]
+        ctx.note_case(("det", case["sub"], case["dtype"], case["n"], case["m"], case["p"], tuple(case["batch"]), case["nobj"], case["nops"], case["matbatched"], case["dseed"]), True)
+        guarded(ctx, case, fn)
+
+
 # ============================================================================= stream: big batches (chunk / block boundaries)
 
-BIG_SHAPES = [[16385], [65537], [128, 128], [129, 127], [1, 16385], [4097, 4], [3, 5, 1093]]
+BIG_SHAPES = [[16385], [65537], [128, 128], [129, 127], [1, 16385], [4097, 4], [3, 5, 1093], [2 ** 17 + 5]]
+BIG_SHAPES_THOROUGH = [[2 ** 18 + 1], [2 ** 18 + 37], [2 ** 20 + 1], [2, 2 ** 17 + 19]]
 
 
 def gen_big_case(seed, quick):
     rng = random.Random(seed)
-    return {"kind": "big", "seed": seed, "fn": rng.choice(["bmv", "bvv", "bvmv", "lti"]), "shape": rng.choice(BIG_SHAPES), "n": rng.choice([1, 2, 3]),
+    return {"kind": "big", "seed": seed, "fn": rng.choice(["bmv", "bvv", "bvmv", "lti"]), "shape": rng.choice(BIG_SHAPES if quick else BIG_SHAPES + BIG_SHAPES_THOROUGH), "n": rng.choice([1, 2, 3]),
             "m": rng.choice([1, 2, 3]), "dtype": rng.choice(["float64", "float32"]), "matbatched": rng.random() < 0.6, "dseed": rng.randrange(1 << 30)}
 
 
 BIG_CORPUS = [{"kind": "big", "corpus": k_, "seed": 9300 + k_, "fn": fn_, "shape": sh_, "n": 2, "m": 3, "dtype": dt_, "matbatched": mb_, "dseed": 800 + k_}
               for k_, (fn_, sh_, dt_, mb_) in enumerate([("bmv", [16385], "float64", True), ("bmv", [65537], "float32", False), ("bvv", [16385], "float32", True),
                                                          ("bvmv", [65537], "float64", True), ("lti", [65537], "float64", False), ("lti", [129, 127], "float32", True),
-                                                         ("bmv", [3, 5, 1093], "float64", True), ("bvmv", [16385], "float32", False)])]
+                                                         ("bmv", [3, 5, 1093], "float64", True), ("bvmv", [16385], "float32", False),
+                                                         # beyond 2^17 (quick) and 2^18 / 2^20 (thorough): block sizes and dropped remainders
+                                                         ("bmv", [2 ** 17 + 5], "float32", True), ("bvv", [2 ** 17 + 5], "float64", True),
+                                                         ("bmv", [2 ** 18 + 37], "float64", False), ("bvv", [2 ** 18 + 37], "float32", True),
+                                                         ("bvmv", [2 ** 18 + 1], "float32", True), ("lti", [2 ** 18 + 37], "float64", False),
+                                                         ("bmv", [2 ** 20 + 1], "float32", True), ("bvv", [2 ** 20 + 1], "float32", True)])]
+BIG_QUICK = [0, 1, 2, 3, 4, 8, 9]
 
 
 def check_big(ctx: Ctx, case):
@@ -2772,7 +3196,14 @@ def check_big(ctx: Ctx, case):
         ctx.fail(pub(case), f"big-eq: {fn} on a batch of {N} items returned non-finite entries (first at item {int((~torch.isfinite(yf.reshape(N, -1))).any(-1).nonzero()[0])})")
         return False
     rr = random.Random(case["seed"] ^ 0xB16)
-    items = [i_ for i_ in [0, N - 1, N - 2, rr.randrange(N), 2 ** 14 - 1, 2 ** 14, 2 ** 16 - 1, 2 ** 16] if 0 <= i_ < N]
+    items = [0, N - 1, N - 2, rr.randrange(N), 2 ** 14 - 1, 2 ** 14, 2 ** 16 - 1, 2 ** 16, 2 ** 17, 2 ** 18 - 1, 2 ** 18]
+    tails = []
+    for k_ in (10, 12, 14, 16, 17, 18, 20):              # the last `N mod 2^k` items (a remainder dropped by a floor division)
+        r_ = N % (2 ** k_)
+        if 0 < r_ < N:
+            items += [N - r_, N - 1 - r_ // 2]
+            tails.append(N - r_)
+    items = sorted({i_ for i_ in items if 0 <= i_ < N})
     sl = lambda t_, b_, s_: t_[s_] if b_ else t_
     ok = True
     for i_ in items:
@@ -2782,7 +3213,7 @@ def check_big(ctx: Ctx, case):
             ctx.fail({**pub(case), "item": i_}, f"big-item: item {i_} of {fn} on a batch of {N} is {yf[i_].reshape(-1)[:4].tolist()} but the same call on that item alone gives {one.reshape(-1)[:4].tolist()}")
             ok = False
             break
-    for a_ in [c_ for c_ in (1, N // 2, N - 1, 2 ** 14) if 0 < c_ < N]:
+    for a_ in sorted({c_ for c_ in [1, N // 2, N - 1, 2 ** 14] + tails[-2:] if 0 < c_ < N}):
         parts = []
         for s_ in (slice(0, a_), slice(a_, N)):
             parts.append(f(*[sl(t_, b_, s_) for t_, b_ in zip(flat, isb)], s_) if fn == "lti" else f(*[sl(t_, b_, s_) for t_, b_ in zip(flat, isb)]))
@@ -2793,7 +3224,7 @@ def check_big(ctx: Ctx, case):
             ok = False
             break
     # exact equations on sampled items, the last one included
-    for i_ in (0, N - 1, rr.randrange(N)):
+    for i_ in sorted({0, N - 1, rr.randrange(N)} | set(tails[-2:])):
         its = [sl(t_, b_, i_).double().tolist() for t_, b_ in zip(flat, isb)]
         if fn == "bmv":
             want = [sum((Fraction(a) * Fraction(b) for a, b in zip(row, its[1])), Fraction(0)) for row in its[0]]
@@ -2870,6 +3301,9 @@ LIN_CORPUS = [
     # the usual structure: full state observed (C = I, D = 0, no c2), square system
     _lin(12, "lti", 3, 2, 3, 1, [2], [_call(bx=[2], bu=[2]), _call(True, bu=[]), _call(bx=[], bu=[2], same=False)], special={"C": "eye", "D": "zero"}, c2=False),
     _lin(13, "lti", 2, 2, 2, 1, [], [_call(), _call(True), _call(same=True)], special={"A": "eye", "B": "zero"}, c1=False, c2=False),
+    # C = I up to 1e-6, D = 1e-7·noise, no c2, scale 1e3: a shortcut guarded by a default-tolerance allclose would take the identity path
+    _lin(25, "lti", 3, 2, 3, 1, [], [_call(scalar=False), _call(True), _call(True)], special={"C": "neareye", "D": "nearzero"}, c2=False, scale=1.0),
+    _lin(26, "lti", 2, 2, 2, 1, [2], [_call(bx=[2], bu=[2]), _call(True, bu=[2])], special={"A": "neareye", "B": "nearzero"}, c1=False, bA=[], bB=[]),
     _lin(14, "lti", 3, 1, 3, 1, [2], [_call(scalar=False), _call(True), dict(_call(bx=[2], bu=[2]), mode="no_grad"), dict(_call(True), mode="grad", kw=True)],
          special={"C": "eye", "D": "zero"}, c2=False, bA=[], bB=[], bC=[], bD=[], bc1=[]),
     # shapes fresh in the process, first used under inference_mode / no_grad, then with autograd (and the other way round)
@@ -2882,6 +3316,17 @@ LIN_CORPUS = [
     # the same calls spelled with keywords and run under every grad mode
     _lin(15, "lti", 2, 2, 2, 1, [3], [dict(_call(bx=[3], bu=[3]), mode="no_grad"), dict(_call(bx=[3], bu=[3]), mode="inference", kw=True), dict(_call(True, bu=[3]), mode="grad"),
                                       dict(_call(True, bu=[]), kw=True), _set("reset", 2), dict(_call(bx=[], bu=[3]), mode="no_grad", kw=True)]),
+    # user subclasses overriding PROPERTIES whose values are generated outside the object (constructor: None / dummy):
+    # the seed's scenario (stacked A, B, C, D; c1, c2 generated from the clock), a constant c1 on a subclass of LTI, everything
+    # generated on an LTI subclass reading _t % T, matrices only, the observation side only
+    _lin(19, "ltvp", 3, 2, 2, 6, [], [_call(), _call(True), _call(True), _set("assign", 4), _call(True), _call(True), _call(True), _set("ref", 2, "int64"), _call()],
+         ov={"c1": "none", "c2": "none"}),
+    _lin(20, "lti", 2, 1, 2, 1, [2], [_call(bx=[2], bu=[2]), _call(True, bu=[]), _set("reset", 3), _call(True, bu=[2])], ov={"c1": "none"}, c2=False),
+    _lin(21, "ltip", 2, 2, 3, 3, [], [_call(), _call(True), _call(True), _call(True), _set("assign", -2), _call(), _set("ref", 1, "int64"), _call(True)],
+         ov={"A": "none", "B": "junk", "C": "zeros", "D": "none", "c1": "junk", "c2": "none"}),
+    _lin(22, "ltvi", 2, 1, 2, 4, [3], [_call(bx=[3], bu=[3]), _call(True, bu=[3]), _call(True, bu=[]), _call(True, bu=[3]), _call(True, bu=[3])], ov={"A": "zeros", "D": "junk"}),
+    _lin(23, "lti", 3, 2, 1, 1, [], [_call(), _call(True), {"ev": "pokemat", "which": "c2", "how": "mul_"}, _call(True)], ov={"C": "junk", "D": "zeros", "c2": "zeros"}),
+    _lin(24, "ltvp", 1, 1, 1, 2, [], [_call(scalar=True), _call(True), _call(True)], ov={"c2": "none"}, c1=False, scalar=True),
     # extreme magnitudes
     _lin(7, "lti", 3, 2, 2, 1, [2], [_call(bx=[2], bu=[2]), _call(bx=[], bu=[2])], scale=1e-30),
     _lin(8, "lti", 3, 2, 2, 1, [2], [_call(bx=[2], bu=[2]), _call(bx=[], bu=[2])], scale=1e8),
@@ -2955,6 +3400,23 @@ NLS_CORPUS.append(_nls(7, 2, 1, [("*", _X0, ("V", 2)), ("+", _X1, ("*", ("V", 3)
                         dict(_ncall([2.0, 0.0], [1.0]), mode="grad", kw=False), {"ev": "xraise", "x": [9.0, 9.0], "u": [9.0]}, _ncall([1.0, 1.0], [1.0]), _R,
                         dict(_nref(None, None, None), mode="no_grad", kw=True), _R, {"ev": "refraise", "x": [4.0, 4.0], "u": [4.0], "t": {"v": 2, "as": "int64"}},
                         dict(_nref([0.25, 0.5], [1.0], {"v": 1, "as": "int64"}), mode="grad", kw=False), _R, _ncall([0.0, 1.0], [2.0]), _R]))
+# user callbacks returning their argument or a view of it: g = x (the same tensor), g = x[:1] (a view), f = u, f = x; the
+# reference point is read repeatedly (an in-place update of the stored f(ref) / g(ref) would corrupt the reference state)
+def _pt(k, nx, nu, fs, gs, pt, dtype="float64"):
+    xs = [[0.5, -1.0, 2.0][:nx], [1.5, 0.25, -0.75][:nx], [2.0, 3.0, -1.0][:nx]]
+    us = [[1.0, -2.0][:nu], [0.5, 0.75][:nu], [-1.5, 2.5][:nu]]
+    return dict(_nls(k, nx, nu, fs, gs,
+                     [_ncall(xs[0], us[0]), _nref(None, None, None), _R, _R, _ncall(xs[1], us[1], nx == 1 and nu == 1), _R, _nref(xs[2], us[2], {"v": 3, "as": "int64"}), _R, _R,
+                      _poke("refX"), _R, _ncall(xs[0], us[1]), _poke("lastX", "add_", 0.5), _nref(None, None, "live"), _R, {"ev": "jacargs", "v": [True, "forward-mode"]}, _R,
+                      {"ev": "clone", "op": "make"}, {"ev": "clone", "op": "call", "x": xs[1], "u": us[0], "t": 0}, {"ev": "clone", "op": "read", "x": xs[0], "u": us[0], "t": 0}, _R],
+                     dtype=dtype), passthrough=pt)
+
+
+NLS_CORPUS += [_pt(13, 2, 1, [("+", ("S", _X0), ("V", 2)), ("*", _X1, ("V", 3))], [_X0, _X1], {"g": "state"}),
+               _pt(14, 2, 2, [("V", 2), ("V", 3)], [_X0], {"f": "input", "g": "view"}),
+               _pt(15, 1, 1, [_X0], [_X0], {"f": "state", "g": "state"}, "float32"),
+               _pt(16, 3, 1, [("*", _X0, _X1), ("K", ("V", 2)), ("+", ("V", 3), ("V", 4))], [("V", 3)], {"g": "input"}),
+               _pt(17, 2, 1, [("-", _X1, ("V", 2)), ("P", _X0, 2)], [_X0, _X1], {"g": "state"}, "float32")]
 # a deep copy taken after set_refpoint: copy and original stepped / reset in turn; both keep their own time in f, g and both
 # keep the reference point
 NLS_CORPUS.append(_nls(6, 1, 1, [("+", ("*", _X0, ("V", 2)), ("V", 1))], [("*", _X0, ("V", 2))],
@@ -3009,12 +3471,12 @@ BMV_CORPUS = [
     _bmv(16, "bmv", 3, 2, [3], [3], [], mode="grad"),
     _bmv(17, "bvmv", 2, 2, [3], [3], [3], [3], mode="inference"),
 ]
-CORPORA = {"multi": CORPUS, "lin": LIN_CORPUS, "nls": NLS_CORPUS, "bmv": BMV_CORPUS, "big": BIG_CORPUS}
+CORPORA = {"multi": CORPUS, "lin": LIN_CORPUS, "nls": NLS_CORPUS, "bmv": BMV_CORPUS, "big": BIG_CORPUS, "det": DET_CORPUS}
 
 
 # ============================================================================= driver
 
-GEN = {"big": gen_big_case, "clock": gen_clock_case, "multi": gen_multi_case, "lin": gen_lin_case, "nls": gen_nls_case, "bmv": gen_bmv_case}
+GEN = {"big": gen_big_case, "clock": gen_clock_case, "multi": gen_multi_case, "lin": gen_lin_case, "nls": gen_nls_case, "bmv": gen_bmv_case, "det": gen_det_case}
 
 
 def run(ctx: Ctx):
@@ -3029,7 +3491,8 @@ def run(ctx: Ctx):
     run_lin(ctx, [dict(c) for c in LIN_CORPUS])
     run_bmv(ctx, [dict(c) for c in BMV_CORPUS])
     run_nls(ctx, [dict(c) for c in NLS_CORPUS], 10 ** 6)
-    run_big(ctx, [dict(c) for c in (BIG_CORPUS if not q else BIG_CORPUS[:5])] + [gen_big_case(s, q) for s in seeds(ctx.pick(2, 40))])
+    run_det(ctx, [dict(c) for c in DET_CORPUS] + [gen_det_case(s, q) for s in seeds(ctx.pick(40, 600))])
+    run_big(ctx, [dict(c) for k_, c in enumerate(BIG_CORPUS) if (not q or k_ in BIG_QUICK)] + [gen_big_case(s, q) for s in seeds(ctx.pick(2, 30))])
     run_clock(ctx, [gen_clock_case(s, q) for s in seeds(ctx.pick(600, 6000))])
     run_multi(ctx, [gen_multi_case(s, q) for s in seeds(ctx.pick(400, 5000))])
     run_lin(ctx, [gen_lin_case(s, q) for s in seeds(ctx.pick(600, 8000))])
@@ -3071,6 +3534,8 @@ def replay(ctx: Ctx, case) -> bool:
         run_lin(ctx, [full])
     elif kind == "bmv":
         run_bmv(ctx, [full])
+    elif kind == "det":
+        run_det(ctx, [full])
     else:
         run_nls(ctx, [full], 10 ** 6)
     for f in ctx.failures[n0:]:
